@@ -60,64 +60,69 @@ def _consts(m: core.Mod) -> dict[str, int]:
     return out
 
 
+NEW_ARGS = [
+    {}, {"microseconds": 1}, {"microseconds": -1}, {"seconds": 59}, {"seconds": -59}, {"seconds": 60}, {"hours": 1}, {"hours": -1},
+    {"seconds": 86399}, {"days": 1}, {"days": -1}, {"seconds": 86401}, {"seconds": -86401}, {"days": 1, "hours": 1, "minutes": 1, "seconds": 1},
+    {"days": -1, "hours": -1, "minutes": -1, "seconds": -1}, {"weeks": 1}, {"weeks": -1}, {"days": 8, "seconds": 3661}, {"days": -8, "seconds": -3661},
+    {"seconds": 12345678}, {"seconds": -12345678}, {"milliseconds": 500}, {"milliseconds": -500}, {"seconds": 1, "microseconds": 250000},
+    {"seconds": -1, "microseconds": -250000}, {"days": 1, "microseconds": 1}, {"days": -1, "microseconds": -1},
+    {"days": 1, "hours": 1, "minutes": 1, "seconds": 1, "microseconds": 123456}, {"days": -1, "hours": -1, "minutes": -1, "seconds": -1, "microseconds": -123456},
+    {"seconds": 59, "microseconds": 999999}, {"seconds": -59, "microseconds": -999999}, {"days": 109500, "seconds": 7, "microseconds": 630000},
+    # sign-cancelling and mixed-sign components
+    {"days": 1, "hours": -25}, {"days": -1, "hours": 25}, {"days": 1, "microseconds": -1}, {"days": -1, "microseconds": 1}, {"weeks": 1, "days": -7},
+    {"weeks": 2, "days": -15, "hours": 23, "minutes": 59, "seconds": 59, "microseconds": 999999}, {"seconds": 1, "milliseconds": -1000},
+    {"hours": 1, "minutes": -61, "seconds": 30}, {"days": 10**6, "microseconds": -1}, {"days": -10**6, "microseconds": 1},
+    {"days": 999999, "seconds": 86399, "microseconds": 999999}, {"milliseconds": 1, "microseconds": -1001},
+    # years and months ride along untouched
+    {"years": 2}, {"months": 5}, {"years": -3, "months": 14}, {"years": 1, "days": -365}, {"months": 1, "days": -31, "seconds": 5},
+    {"years": 2, "months": -3, "weeks": 1, "days": 1, "hours": 1, "minutes": 1, "seconds": 1, "milliseconds": 1, "microseconds": 1},
+    {"years": -2, "months": 3, "weeks": -1, "days": -1, "hours": -1, "minutes": -1, "seconds": -1, "milliseconds": -1, "microseconds": -1},
+    {"years": 1, "seconds": -1}, {"months": -1, "microseconds": 1},
+]
+
+
 def _new_tabulate(ctx, m, fn, cls: str, absolute: bool) -> bool | None:
-    """the normalisation of Duration.__new__ / AbsoluteDuration.__new__, decided on values: the statements after `total = ...`
-    are evaluated with the checker's interpreter (rules/minieval.py) for a table of totals (both signs, whole and fractional,
-    multiples of a day and a week); the stored breakdown must be the mixed-radix digits of abs(int(total)) with the sign of
-    total (no sign for the absolute class), and the sub-second remainder in microseconds."""
-    from types import SimpleNamespace as NS
-    from ..rules import minieval
-    body = core.body_no_doc(fn)
-    start = None
-    for i, st in enumerate(body):
-        if isinstance(st, ast.Assign) and nun(st.targets[0]) == "total":
-            start = i
-    if start is None:
-        return None
-    rest = body[start + 1:]
-    consts = dict(_consts(m))
-    consts.setdefault("US_PER_SECOND", core.const("constants", "US_PER_SECOND"))
+    """the normalisation of Duration.__new__ / AbsoluteDuration.__new__, decided on values: the whole constructor is evaluated
+    with the checker's interpreter (rules/minieval.py, rules/durstub.py: the C base class is the standard library's own
+    timedelta) for a table of argument tuples (both signs, unit boundaries, sub-second parts, sign-cancelling components,
+    years and months).  The native value must be timedelta(the same arguments, a year = 365 days, a month = 30 days), years
+    and months kept as given, and the stored breakdown the mixed-radix digits of |the rest| with the sign of the rest (no
+    sign for the absolute class), `_total` the rest in seconds."""
+    import datetime as _dt
+    from ..rules import durstub
     bad, n = [], 0
-    # the unit of `total`: float seconds, or whole microseconds when its definition scales by US_PER_SECOND / 10**6
-    tdef = nun(body[start].value)
-    in_us = "US_PER_SECOND" in tdef or "1000000" in tdef or "10 ** 6" in tdef
-    from fractions import Fraction as Fr
-    exact = [0, 1, -1, 59, -59, 60, 3600, -3600, 86399, 86400, -86400, 86401, -86401, 90061, -90061, 604800, -604800, 694861, -694861,
-             12345678, -12345678, Fr(1, 2), Fr(-1, 2), Fr(5, 4), Fr(-5, 4), Fr(86400000001, 10**6), Fr(-86400000001, 10**6),
-             Fr(90061123456, 10**6), Fr(-90061123456, 10**6), Fr(59999999, 10**6), Fr(-59999999, 10**6), Fr(9460800007630000, 10**6)]
-    if absolute:
-        exact = [v for v in exact if v >= 0]       # `total = abs(...)`: the absolute class never sees a negative total
-    totals = [int(v * 10**6) if in_us else (int(v) if Fr(v).denominator == 1 else float(v)) for v in exact]
     try:
-        for total in totals:
-            selfo = NS()
-            env = {"total": total, "self": selfo, "years": 0, "months": 0, "weeks": 0, "days": 0, "hours": 0, "minutes": 0, "seconds": 0,
-                   "milliseconds": 0, "microseconds": 0}
-            for st in rest:
-                try:
-                    minieval.run([st], env, {"$globals": consts})
-                except core.Unsupported:
-                    if all(hasattr(selfo, a_) for a_ in ("_days", "_seconds", "_microseconds", "_weeks", "_remaining_days")):
-                        break
-                    raise
-            sgn = 1 if (absolute or total >= 0) else -1
-            us_all = abs(total) if in_us else abs(round(Fr(total) * 10**6))
-            a_ = us_all // 10**6
-            want = {"_days": a_ // 86400 * sgn, "_seconds": a_ % 86400 * sgn, "_weeks": a_ // 86400 // 7 * sgn, "_remaining_days": a_ // 86400 % 7 * sgn,
-                    "_microseconds": us_all % 10**6 * sgn}
+        w = durstub.World(m, cls)
+        for kw in NEW_ARGS:
+            y, mo = kw.get("years", 0), kw.get("months", 0)
+            o = w.call("__new__", [w.duration_cls], dict(kw))
+            if not isinstance(o, durstub.Obj):
+                raise core.Unsupported("__new__ does not return the instance")
+            f = vars(o)
+            rest_td = _dt.timedelta(**{k: v for k, v in kw.items() if k not in ("years", "months")})
+            rest = (rest_td.days * 86400 + rest_td.seconds) * 10**6 + rest_td.microseconds
             n += 1
+            sgn = 1 if (absolute or rest >= 0) else -1
+            a_ = abs(rest) // 10**6
+            want = {"_days": a_ // 86400 * sgn, "_seconds": a_ % 86400 * sgn, "_weeks": a_ // 86400 // 7 * sgn, "_remaining_days": a_ // 86400 % 7 * sgn,
+                    "_microseconds": abs(rest) % 10**6 * sgn, "_years": abs(y) if absolute else y, "_months": abs(mo) if absolute else mo,
+                    "_total": rest / 10**6}
             if absolute:
-                want.pop("_days")          # kept with years and months included (checked by its own rule)
-            for k, w in want.items():
-                g = getattr(selfo, k, None)
-                if g != w:
-                    bad.append(f"total={total!r}: {k}={g!r} (expected {w!r})")
-    except (core.Unsupported, ValueError, TypeError, KeyError, AttributeError, ZeroDivisionError) as e:
-        ctx.unverified("DIVMOD.tabulated", f"{cls}.__new__", f"outside the checker's interpreter: {e}", m.loc(fn))
+                want["_days"] = abs(a_ // 86400 + y * 365 + mo * 30)    # the absolute class keeps years and months in _days
+                want["_native"] = rest_td
+            else:
+                want["_native"] = _dt.timedelta(days=y * 365 + mo * 30) + rest_td
+            for k, w_ in want.items():
+                g = f.get(k)
+                if g != w_ or (k != "_total" and k != "_native" and type(g) is not int):
+                    bad.append(f"{cls}({', '.join(f'{a}={v}' for a, v in kw.items())}): {k.replace('_native', 'timedelta value')}={g!r} (expected {w_!r})")
+    except durstub.ERRORS as e:
+        ctx.unverified("DIVMOD.tabulated", f"{cls}.__new__", f"outside the checker's interpreter: {type(e).__name__}: {e}", m.loc(fn))
         return None
     ctx.ob("DIVMOD.tabulated", f"{cls}.__new__", not bad,
-           f"{n} totals evaluated on the statements after `total = ...`: " + (f"wrong breakdown: {bad[:3]}" if bad else
-           "weeks/remaining_days/_days/_seconds are the digits of abs(int(total)) with the sign of total, _microseconds its sub-second part"), m.loc(fn))
+           f"{n} argument tuples evaluated through the whole constructor: " + (f"wrong state: {bad[:3]}" if bad else
+           "the native value is timedelta(args) with 365-day years and 30-day months; years/months kept; weeks/remaining_days/_days/_seconds/"
+           "_microseconds are the digits of the rest with its sign, _total the rest in seconds"), m.loc(fn))
     return not bad
 
 
@@ -155,15 +160,15 @@ def _duration_new(ctx) -> None:
     def E(src):
         return can.s(ast.parse(src, mode="eval").body)
     td = [c for c in core.calls(fn) if nun(c.func) == "timedelta.__new__"]
-    if len(td) != 1:
+    if len(td) != 1 and not tab:
         ctx.unverified("UNITS.new", "Duration.__new__", "timedelta.__new__ call not found", m.loc(fn))
         return
-    args = td[0].args
+    args = td[0].args if len(td) == 1 else []
     names = ["days", "seconds", "microseconds", "milliseconds", "minutes", "hours", "weeks"]
-    ctx.ob("UNITS.new", "Duration.__new__/timedelta-slots", len(args) == 8 and [nun(a) for a in args[2:]] == names[1:] and nun(args[0]) == "cls",
+    ctx.ob("UNITS.new", "Duration.__new__/timedelta-slots", bool(tab) or (len(args) == 8 and [nun(a) for a in args[2:]] == names[1:] and nun(args[0]) == "cls"),
            f"timedelta.__new__({[nun(a) for a in args]}); timedelta's positional order is {names}", m.loc(td[0]))
-    if len(args) >= 2:
-        ctx.ob("UNITS.new", "Duration.__new__/days", can.s(args[1]) == E("days + years * 365 + months * 30"),
+    if len(args) >= 2 or tab:
+        ctx.ob("UNITS.new", "Duration.__new__/days", bool(tab) or can.s(args[1]) == E("days + years * 365 + months * 30"),
                f"days argument is `{nun(args[1])}`; a year counts 365 days and a month 30", m.loc(td[0]))
     a = self_assigns(fn)
     # the sign variable: a local set to 1 and to -1 under `total < 0` (whatever it is called)
@@ -182,9 +187,9 @@ def _duration_new(ctx) -> None:
     tot_forms = (E("self.total_seconds() - (years * 365 + months * 30) * 86400"),
                  E("((timedelta.days.__get__(self) - (years * 365 + months * 30)) * 86400 + timedelta.seconds.__get__(self)) * 1000000 "
                    "+ timedelta.microseconds.__get__(self)"))
-    ctx.ob("UNITS.new", "Duration.__new__/total", tot is not None and can.s(tot) in tot_forms,
+    ctx.ob("UNITS.new", "Duration.__new__/total", bool(tab) or (tot is not None and can.s(tot) in tot_forms),
            f"total = `{nun(tot)}`; the years/months part added above must be removed again (seconds, or exact microseconds from the native slots)", m.loc(fn))
-    ctx.ob("UNITS.new", "Duration.__new__/_total", "_total" in a and can.s(a["_total"]) in (E("total"), E("total / 1000000")),
+    ctx.ob("UNITS.new", "Duration.__new__/_total", bool(tab) or ("_total" in a and can.s(a["_total"]) in (E("total"), E("total / 1000000"))),
            "self._total is the length without years/months in seconds", m.loc(fn))
     # sign
     ifs = [n for n in core.walk_fn(fn) if isinstance(n, ast.If) and nun(n.test) in ("total < 0", "0 > total")]
@@ -200,7 +205,7 @@ def _duration_new(ctx) -> None:
     }
     for k, src in want.items():
         got = a.get(k)
-        ctx.ob("DIVMOD.pair", f"Duration.__new__/{k}", (got is not None and can.s(got) == E(src)) or (bool(tab) and k not in ("_months", "_years")),
+        ctx.ob("DIVMOD.pair", f"Duration.__new__/{k}", (got is not None and can.s(got) == E(src)) or bool(tab),
                f"self.{k} = `{nun(got)}`; must be `{src}`", m.loc(fn))
     d = a.get("local:_days")
     ctx.ob("DIVMOD.pair", "Duration.__new__/_days-local", (d is not None and can.s(d) == E("abs(int(total)) // 86400 * m")) or bool(tab),
@@ -229,10 +234,10 @@ def _abs_new(ctx) -> None:
         return can.s(ast.parse(src, mode="eval").body)
     names = ["days", "seconds", "microseconds", "milliseconds", "minutes", "hours", "weeks"]
     td = [c for c in core.calls(fn) if nun(c.func) == "timedelta.__new__"]
-    ok = len(td) == 1 and [nun(x) for x in td[0].args] == ["cls"] + names
+    ok = bool(tab) or (len(td) == 1 and [nun(x) for x in td[0].args] == ["cls"] + names)
     ctx.ob("UNITS.new", "AbsoluteDuration.__new__/timedelta-slots", ok, f"{[nun(x) for x in td[0].args] if td else None}", m.loc(fn))
     td2 = [c for c in core.calls(fn) if nun(c.func) == "timedelta"]
-    ok = len(td2) == 1 and [nun(x) for x in td2[0].args] == names
+    ok = bool(tab) or (len(td2) == 1 and [nun(x) for x in td2[0].args] == names)
     ctx.ob("UNITS.new", "AbsoluteDuration.__new__/delta-slots", ok, f"{[nun(x) for x in td2[0].args] if td2 else None}", m.loc(fn))
     a = self_assigns(fn)
     want = {"_total": "delta.total_seconds()", "_microseconds": None, "_seconds": "divmod(int(total), 86400)[1]",
@@ -242,11 +247,11 @@ def _abs_new(ctx) -> None:
         if src is None:
             continue
         got = a.get(k)
-        ctx.ob("DIVMOD.pair", f"AbsoluteDuration.__new__/{k}", (got is not None and can.s(got) == E(src)) or (bool(tab) and k in ("_seconds", "_weeks", "_remaining_days")),
+        ctx.ob("DIVMOD.pair", f"AbsoluteDuration.__new__/{k}", (got is not None and can.s(got) == E(src)) or bool(tab),
                f"self.{k} = `{nun(got)}`; must be `{src}`", m.loc(fn))
     ctx.ob("DIVMOD.pair", "AbsoluteDuration.__new__/days-local", ("days" in a and can.s(a["days"]) == E("divmod(int(total), 86400)[0]")) or bool(tab),
            f"days = `{nun(a.get('days'))}`", m.loc(fn))
-    ctx.ob("DIVMOD.pair", "AbsoluteDuration.__new__/total", nun(a.get("local:total")) == "abs(self._total)", f"total = `{nun(a.get('local:total'))}`", m.loc(fn))
+    ctx.ob("DIVMOD.pair", "AbsoluteDuration.__new__/total", bool(tab) or nun(a.get("local:total")) == "abs(self._total)", f"total = `{nun(a.get('local:total'))}`", m.loc(fn))
     us = a.get("_microseconds")
     ctx.ob("DIVMOD.pair", "AbsoluteDuration.__new__/_microseconds", (us is not None and nun(us) in ("round(total % 1 * 1000000.0)",)) or bool(tab),
            f"`{nun(us)}`", m.loc(fn))
